@@ -1,5 +1,5 @@
 (* driver.ml — line protocol for the dial model (engine smtpdial: C07, C17, C19).
-   input : <id> <kind> <policy> <ssl> <auth> <custom> <host> <nonoop> <mute> <caps> <capstls> <hs> <script> <msgs> [<fallback 0|1> <refused dial attempts>]
+   input : <id> <kind> <policy> <ssl> <auth> <custom> <host> <nonoop> <mute> <caps> <capstls> <hs> <script> <msgs> [<fallback 0|1|2 (2 = real TCP, reduced observable)> <refused dial attempts>]
      kind dial|das|sess|sess2   policy M|O|N   ssl 0|1   auth/host: hex   custom: - | plain0 | plain1 | login0 | cram | xoauth2
      nonoop 0|1   mute: - | n   caps/capstls: hex list   hs: ok|wrongname|untrusted|garbage|stall
      script: - | comma list of ok|drop|stall|<code>|<code>b|<code>e   msgs: - | comma list of recipient counts
@@ -84,7 +84,7 @@ let rec run (toks : string list) : string =
         | "plain0" -> Some (M.plain_impl false) | "plain1" -> Some (M.plain_impl true)
         | "login0" -> Some (M.login_impl false) | "cram" -> Some M.cram_impl | "xoauth2" -> Some M.xoauth2_impl
         | _ -> None) in
-    let cfg = M.cfg_src p (ssl = "1") (bytes_of_hex auth) cu (bytes_of_hex host) (nonoop = "1") (fb = "1") in
+    let cfg = M.cfg_src p (ssl = "1") (bytes_of_hex auth) cu (bytes_of_hex host) (nonoop = "1") (fb = "1" || fb = "2") in
     let sc = if script = "-" then [] else List.map decision_of (split_on ',' script) in
     let mu = if mute = "-" then None else Some (nat_of_int (int_of_string mute)) in
     let h = (match hs with "ok" -> M.HsOk | "stall" -> M.HsStall | _ -> M.HsFail) in
@@ -93,7 +93,7 @@ let rec run (toks : string list) : string =
     let ((results, ph), w) = M.run_case k cfg srv ms in
     (* TCP: whether a write to a connection closed by the peer fails at once or the following read sees EOF is the
        kernel's business: both are the class "gone" for the implicit-TLS rows *)
-    let gone c = if ssl = "1" && (c = "write" || c = "eof") then "gone" else c in
+    let gone c = if (ssl = "1" || fb = "2") && (c = "write" || c = "eof") then "gone" else c in
     let rs = String.concat "/" (List.map (fun r -> gone (res_class r)) results) in
     let rs = (match ph with
         | Some M.PhDial -> "dial:" ^ rs | Some M.PhSend -> "send:" ^ rs | Some M.PhClose -> "close:" ^ rs | None -> rs) in
@@ -101,7 +101,7 @@ let rec run (toks : string list) : string =
     let srvs = String.concat "," (List.map (fun ((v, t), c) ->
         Printf.sprintf "%s/%s:%d" (verb_name v) (if t then "t" else "c") (int_of_n c)) log) in
     let srvs = if srvs = "" then "-" else srvs in
-    if ssl = "1" then
+    if ssl = "1" || fb = "2" then
       Printf.sprintf "%s ended=%d srv=%s" rs (if M.ended w then 1 else 0) srvs
     else begin
       let ac = String.concat "" (List.map (fun a -> if a then "A" else "U") (M.arm_clear w.M.w_trace)) in
